@@ -1,2 +1,814 @@
-//! C09 (stub, filled in below).
-pub fn run(_cli: &mc_core::Cli) -> ! { mc_core::machinery_error("C09 not built yet") }
+//! C09: validation admits only safe modules; parsing/validation/compilation are total.
+//!
+//! Three exhaustive generators (see DESIGN.md §5 C09):
+//!  1. instruction level: every valid prefix followed by <= 2 arbitrary symbols from an
+//!     alphabet that includes ill-typed / ill-formed variants; accept <=> reference validator;
+//!  2. section / limit level: every chain restriction at its boundary and one beyond;
+//!  3. byte level: every truncation / byte replacement / LEB re-encoding of seed modules:
+//!     no panic, termination, and every accepted mutant executes without tripping a
+//!     bounds assertion.
+
+use crate::{
+    ast::*,
+    cost::CostV,
+    gen::{self, AlphabetKind, Shape},
+    ops::Val,
+    real::{self, Build, RealOutcome, RecHost, VCfg},
+    refval::{validate_body, FnCtx, VState},
+};
+use mc_core::{Cli, Report, Tier};
+use rayon::prelude::*;
+use serde_json::{json, Value as J};
+use std::sync::atomic::{AtomicU64, Ordering};
+
+fn plain(v: VCfg) -> Build { Build { vcfg: v, metering: None } }
+
+fn metered(v: VCfg) -> Build {
+    Build {
+        vcfg:     v,
+        metering: Some(match v {
+            VCfg::V0 => CostV::V0,
+            VCfg::V1 => CostV::V1,
+        }),
+    }
+}
+
+/// Instantiate catching panics. Ok(true) accepted, Ok(false) rejected, Err(panic).
+fn accepts(bytes: &[u8], b: Build) -> Result<Option<real::RealArtifact>, String> {
+    match mc_core::catch(|| real::instantiate(bytes, b)) {
+        Ok(Ok(a)) => Ok(Some(a)),
+        Ok(Err(_)) => Ok(None),
+        Err(p) => Err(p),
+    }
+}
+
+/// Execute every exported function of an accepted module with boundary arguments under a
+/// budget and a step limit; any panic (bounds assertion of hook H2 included) is a violation.
+fn exec_safely(report: &Report, wit: &J, art: &real::RealArtifact, runs: &AtomicU64) {
+    let names: Vec<(String, u32)> = art.export.iter().map(|(n, i)| (n.as_ref().to_string(), *i)).collect();
+    for (name, idx) in names {
+        let Some(code_idx) = (idx as usize).checked_sub(art.imports.len()) else { continue };
+        let Some(code) = art.code.get(code_idx) else { continue };
+        use concordium_wasm::artifact::RunnableCode;
+        let params: Vec<_> = code.params().to_vec();
+        for seed in [0i64, 1, -1, i32::MIN as i64] {
+            let args: Vec<Val> = params
+                .iter()
+                .enumerate()
+                .map(|(i, p)| {
+                    let v = if i % 2 == 0 { seed } else { !seed };
+                    match p {
+                        concordium_wasm::types::ValueType::I32 => Val::I32(v as i32),
+                        concordium_wasm::types::ValueType::I64 => Val::I64(v),
+                    }
+                })
+                .collect();
+            let mut host = RecHost::new(Some(2_000), 16);
+            host.record_ticks = false;
+            let rr = real::run_real(art, &name, &args, &mut host, 200_000);
+            runs.fetch_add(1, Ordering::Relaxed);
+            if let RealOutcome::Panic(p) = &rr.outcome {
+                report.violation("unsafe-execution", wit.clone(), json!({"entry": name, "args": format!("{args:?}"), "panic": p}));
+            }
+        }
+    }
+}
+
+// ---------------------------------------------------------------------------------------
+// (1) instruction level
+// ---------------------------------------------------------------------------------------
+
+fn hostile_alphabet(shape: Shape) -> Vec<Instr> {
+    use Instr::*;
+    let mut a = gen::alphabet(AlphabetKind::Memory, shape);
+    a.extend([
+        LocalGet(9),              // local index out of range
+        LocalSet(4),              // one past the last local
+        Br(7),                    // label out of range
+        BrIf(2),                  // may or may not be in range depending on nesting
+        GlobalSet(2),             // immutable global
+        GlobalGet(3),             // global index out of range
+        Call(99),                 // function index out of range
+        CallIndirect(99),         // type index out of range
+        Num(0xC0),                // i32.extend8_s: V1 only
+        Num(0xC4),                // i64.extend32_s: V1 only
+        Raw(vec![0x43, 0, 0, 0, 0]), // f32.const
+        Raw(vec![0x92]),          // f32.add
+        Raw(vec![0x06]),          // reserved opcode
+        Raw(vec![0xFC, 0x00]),    // saturating truncation prefix (not in 1.0)
+        Raw(vec![0xC5]),          // first opcode after the sign-extension range
+        Load(0x28, 3, 0),         // i32.load with alignment 2^3 > 4
+        Store(0x3A, 1, 0),        // i32.store8 with alignment 2^1 > 1
+        Raw(vec![0x2A, 0x02, 0x00]), // f32.load
+        Raw(vec![0x11, 0x01, 0x01]), // call_indirect with non-zero table byte
+        Raw(vec![0x3F, 0x01]),    // memory.size with non-zero memory byte
+        Raw(vec![0x02, 0x7D]),    // block (result f32)
+        Raw(vec![0x02, 0x00]),    // block with a type index (multi-value proposal)
+        I64Const(i64::MIN),
+        I32Const(i32::MIN),
+        BrTable(vec![], 0),
+        BrTable(vec![1, 0, 1], 1),
+    ]);
+    a
+}
+
+/// The module around a body for generator (1): like the C01 template but with an immutable
+/// third global and, for `no_memory`, without memory/table.
+fn c09_module(body: &[Instr], shape: Shape, bare: bool) -> Module {
+    // a memory is declared only when the body uses it (every run of a module with a memory
+    // costs a 32 MiB allocation); `memory.*` without a memory is covered by the bare variant
+    let mut m = gen::template(body, shape, false);
+    m.globals.push(Global { ty: VT::I32, mutable: false, init: 9 });
+    if bare {
+        m.memory = None;
+        m.data.clear();
+        m.table = None;
+        m.elems.clear();
+    }
+    m
+}
+
+fn instr_level(report: &Report, tier: Tier, cases: &AtomicU64, accepted: &AtomicU64, runs: &AtomicU64, prefixes_out: &AtomicU64) {
+    let shape = Shape { ret: Some(VT::I32), hosts: false };
+    let prefix_len = if tier == Tier::Quick { 2 } else { 3 };
+    let tail_len = 2;
+    for bare in [false, true] {
+        let valid_alpha = gen::alphabet(AlphabetKind::Wide, shape);
+        let hostile = hostile_alphabet(shape);
+        let module0 = c09_module(&[], shape, bare);
+        let ctx_v0 = FnCtx::for_func(&module0, 0, false);
+        let ctx_v1 = FnCtx::for_func(&module0, 0, true);
+        // all admissible prefixes (not necessarily complete) of length <= prefix_len
+        let mut prefixes: Vec<Vec<Instr>> = vec![vec![]];
+        let mut level: Vec<(Vec<Instr>, VState)> = vec![(vec![], VState::new(&ctx_v0))];
+        for _ in 0..prefix_len {
+            let mut next = vec![];
+            for (w, s) in &level {
+                for sym in &valid_alpha {
+                    let mut s2 = s.clone();
+                    if s2.step(&ctx_v0, sym).is_ok() && !s2.done() {
+                        let mut w2 = w.clone();
+                        w2.push(sym.clone());
+                        prefixes.push(w2.clone());
+                        next.push((w2, s2));
+                    }
+                }
+            }
+            level = next;
+        }
+        prefixes_out.fetch_add(prefixes.len() as u64, Ordering::Relaxed);
+        // tails of length 1..=tail_len over the hostile alphabet
+        let mut tails: Vec<Vec<Instr>> = vec![];
+        for a in &hostile {
+            tails.push(vec![a.clone()]);
+        }
+        if tail_len >= 2 {
+            for a in &hostile {
+                for b in &hostile {
+                    tails.push(vec![a.clone(), b.clone()]);
+                }
+            }
+        }
+        prefixes.par_iter().for_each(|p| {
+            for t in &tails {
+                let mut body = p.clone();
+                body.extend(t.iter().cloned());
+                let module = c09_module(&body, shape, bare);
+                let bytes = module.encode();
+                cases.fetch_add(1, Ordering::Relaxed);
+                for (vcfg, ctx) in [(VCfg::V0, &ctx_v0), (VCfg::V1, &ctx_v1)] {
+                    let mut ctx = ctx.clone();
+                    ctx.has_memory = module.memory.is_some();
+                    let expect = validate_body(&ctx, &body).is_ok();
+                    let wit = json!({"gen": "instr", "bare_module": bare, "config": vcfg.name(), "text": body_text(&body), "body": body_to_json(&body)});
+                    match accepts(&bytes, plain(vcfg)) {
+                        Err(p) => report.violation("instantiate-panic", wit, json!({"panic": p})),
+                        Ok(got) => {
+                            if got.is_some() != expect {
+                                report.violation(
+                                    if expect { "valid-module-rejected" } else { "invalid-module-accepted" },
+                                    wit.clone(),
+                                    json!({"reference_valid": expect, "accepted": got.is_some()}),
+                                );
+                            }
+                            if let Some(_plain_art) = got {
+                                accepted.fetch_add(1, Ordering::Relaxed);
+                                // run the metered build (bounded by energy) for execution safety
+                                if let Ok(Some(art)) = accepts(&bytes, metered(vcfg)) {
+                                    exec_safely(report, &wit, &art, runs);
+                                } else {
+                                    report.violation("accepted-module-does-not-compile-with-metering", wit, json!({}));
+                                }
+                            }
+                        }
+                    }
+                }
+            }
+        });
+    }
+}
+
+// ---------------------------------------------------------------------------------------
+// (2) section / limit level
+// ---------------------------------------------------------------------------------------
+
+struct LimitCase {
+    name:   String,
+    bytes:  Vec<u8>,
+    /// expected verdict under (V0, V1)
+    expect: (bool, bool),
+}
+
+fn base_module() -> Module {
+    let mut m = Module::default();
+    m.types = vec![FuncType { params: vec![], result: None }, FuncType { params: vec![VT::I32], result: Some(VT::I32) }];
+    m.funcs = vec![Func { ty: 0, locals: vec![], body: vec![] }];
+    m.exports = vec![("f".into(), ExportKind::Func(0))];
+    m
+}
+
+fn raw_section(id: u8, body: &[u8]) -> Vec<u8> {
+    let mut out = vec![id];
+    leb_u(body.len() as u64, &mut out);
+    out.extend_from_slice(body);
+    out
+}
+
+/// Insert a raw section into an encoded module after the section with id `after` (or right
+/// after the header if `after` is None).
+fn splice(bytes: &[u8], after: Option<u8>, extra: &[u8]) -> Vec<u8> {
+    let mut pos = 8;
+    let mut insert_at = 8;
+    while pos < bytes.len() {
+        let id = bytes[pos];
+        let mut p = pos + 1;
+        let mut len: u64 = 0;
+        let mut shift = 0;
+        loop {
+            let b = bytes[p];
+            p += 1;
+            len |= ((b & 0x7f) as u64) << shift;
+            shift += 7;
+            if b & 0x80 == 0 {
+                break;
+            }
+        }
+        let end = p + len as usize;
+        if let Some(a) = after {
+            if id <= a {
+                insert_at = end;
+            }
+        }
+        pos = end;
+    }
+    let mut out = bytes[..insert_at].to_vec();
+    out.extend_from_slice(extra);
+    out.extend_from_slice(&bytes[insert_at..]);
+    out
+}
+
+fn limit_cases() -> Vec<LimitCase> {
+    let mut cases = vec![];
+    let mut add = |name: &str, bytes: Vec<u8>, v0: bool, v1: bool| cases.push(LimitCase { name: name.to_string(), bytes, expect: (v0, v1) });
+    let both = |b: bool| (b, b);
+    let _ = both;
+
+    add("minimal module", base_module().encode(), true, true);
+    add("header only", vec![0x00, 0x61, 0x73, 0x6D, 0x01, 0, 0, 0], true, true);
+    add("wrong version", vec![0x00, 0x61, 0x73, 0x6D, 0x02, 0, 0, 0], false, false);
+    add("wrong magic", vec![0x00, 0x61, 0x73, 0x6E, 0x01, 0, 0, 0], false, false);
+
+    // locals + stack height <= 1024
+    for (nlocals, height, ok) in [(1024u32, 0usize, true), (1023, 1, true), (1024, 1, false), (1025, 0, false), (1000, 24, true), (1000, 25, false)] {
+        let mut m = base_module();
+        let mut body = vec![];
+        for _ in 0..height {
+            body.push(Instr::I32Const(1));
+        }
+        for _ in 0..height {
+            body.push(Instr::Drop);
+        }
+        m.funcs[0] = Func { ty: 0, locals: vec![VT::I32; nlocals as usize], body };
+        add(&format!("locals {nlocals} + stack {height}"), m.encode(), ok, ok);
+    }
+    // parameters count as locals
+    {
+        let mut m = base_module();
+        m.types.push(FuncType { params: vec![VT::I32; 2], result: None });
+        m.funcs[0] = Func { ty: 2, locals: vec![VT::I64; 1022], body: vec![] };
+        m.exports.clear();
+        add("2 params + 1022 locals", m.encode(), true, true);
+        m.funcs[0].locals.push(VT::I64);
+        add("2 params + 1023 locals", m.encode(), false, false);
+    }
+    // memory limits
+    for (min, max, ok) in [(32u32, None, true), (33, None, false), (0, Some(65536u32), true), (0, Some(65537), false), (2, Some(1), false), (32, Some(32), true), (1, Some(0x7FFF_FFFF), false)] {
+        let mut m = base_module();
+        m.memory = Some((min, max));
+        add(&format!("memory min {min} max {max:?}"), m.encode(), ok, ok);
+    }
+    // table limits
+    for (min, max, ok) in [(1000u32, None, true), (1001, None, false), (0, Some(5u32), true), (3, Some(2), false)] {
+        let mut m = base_module();
+        m.table = Some((min, max));
+        add(&format!("table min {min} max {max:?}"), m.encode(), ok, ok);
+    }
+    // globals
+    for (n, ok) in [(1024usize, true), (1025, false)] {
+        let mut m = base_module();
+        m.globals = vec![Global { ty: VT::I32, mutable: true, init: 0 }; n];
+        add(&format!("{n} globals"), m.encode(), ok, ok);
+    }
+    // exports
+    for (n, ok) in [(100usize, true), (101, false)] {
+        let mut m = base_module();
+        m.exports = (0..n).map(|i| (format!("e{i}"), ExportKind::Func(0))).collect();
+        add(&format!("{n} exports"), m.encode(), ok, ok);
+    }
+    {
+        let mut m = base_module();
+        m.exports = vec![("a".into(), ExportKind::Func(0)), ("a".into(), ExportKind::Func(0))];
+        add("duplicate export name", m.encode(), false, false);
+        let mut m = base_module();
+        m.exports = vec![("a".into(), ExportKind::Func(1))];
+        add("export of a non-existent function", m.encode(), false, false);
+        let mut m = base_module();
+        m.exports = vec![("m".into(), ExportKind::Memory)];
+        add("export memory without memory", m.encode(), false, false);
+        m.memory = Some((1, None));
+        add("export memory", m.encode(), true, true);
+        let mut m = base_module();
+        m.exports = vec![("t".into(), ExportKind::Table)];
+        add("export table without table", m.encode(), false, false);
+        m.table = Some((1, None));
+        add("export table", m.encode(), true, true);
+        let mut m = base_module();
+        m.exports = vec![("g".into(), ExportKind::Global(0))];
+        add("export global without global", m.encode(), false, false);
+        m.globals = vec![Global { ty: VT::I64, mutable: false, init: 1 }];
+        add("export global", m.encode(), true, true);
+    }
+    // name length: exported function names are limited to 100 bytes (MAX_FUNC_NAME_SIZE,
+    // documented in constants.rs), all other names to 512
+    for (n, ok) in [(100usize, true), (101, false)] {
+        let mut m = base_module();
+        m.exports = vec![("x".repeat(n), ExportKind::Func(0))];
+        add(&format!("function export name of {n} bytes"), m.encode(), ok, ok);
+    }
+    for (n, ok) in [(512usize, true), (513, false)] {
+        let mut m = base_module();
+        m.memory = Some((1, None));
+        m.exports = vec![("x".repeat(n), ExportKind::Memory)];
+        add(&format!("memory export name of {n} bytes"), m.encode(), ok, ok);
+        let mut m = base_module();
+        m.imports = vec![Import { module: "env".into(), name: format!("h{}", "x".repeat(n - 1)), ty: 0 }];
+        m.exports.clear();
+        add(&format!("import name of {n} bytes"), m.encode(), ok, ok);
+    }
+    // br_table size
+    for (n, ok) in [(4096usize, true), (4097, false)] {
+        let mut m = base_module();
+        m.funcs[0].body = vec![Instr::I32Const(0), Instr::BrTable(vec![0; n], 0)];
+        add(&format!("br_table with {n} labels"), m.encode(), ok, ok);
+    }
+    // two memories / two tables
+    {
+        let m = base_module();
+        let b = m.encode();
+        add("two memories", splice(&b, Some(3), &raw_section(5, &[2, 0, 1, 0, 1])), false, false);
+        add("two tables", splice(&b, Some(3), &raw_section(4, &[2, 0x70, 0, 1, 0x70, 0, 1])), false, false);
+        add("start section", splice(&b, Some(7), &raw_section(8, &[0])), false, false);
+        add("empty start section", splice(&b, Some(7), &raw_section(8, &[])), false, false);
+        add("custom section first", splice(&b, None, &raw_section(0, &[1, b'n', 1, 2, 3])), true, true);
+        add("custom section last", { let mut x = b.clone(); x.extend(raw_section(0, &[1, b'n'])); x }, true, true);
+        add("custom section with truncated name", splice(&b, None, &raw_section(0, &[5, b'n'])), false, false);
+        add("unknown section id 12", splice(&b, Some(11), &raw_section(12, &[])), false, false);
+        add("duplicate type section", splice(&b, Some(1), &raw_section(1, &[0])), false, false);
+        add("type section after function section", splice(&b, Some(3), &raw_section(1, &[0])), false, false);
+        add("trailing byte after last section", { let mut x = b.clone(); x.push(0); x }, false, false);
+        // imports of anything but functions
+        add("imported memory", splice(&b, Some(1), &raw_section(2, &[1, 3, b'e', b'n', b'v', 1, b'm', 0x02, 0x00, 1])), false, false);
+        add("imported table", splice(&b, Some(1), &raw_section(2, &[1, 3, b'e', b'n', b'v', 1, b't', 0x01, 0x70, 0x00, 1])), false, false);
+        add("imported global", splice(&b, Some(1), &raw_section(2, &[1, 3, b'e', b'n', b'v', 1, b'g', 0x03, 0x7F, 0x00])), false, false);
+    }
+    // imports: allowed / disallowed by the embedder's policy (EnvImports: env.h*)
+    {
+        let mut m = base_module();
+        m.imports = vec![Import { module: "env".into(), name: "h0".into(), ty: 0 }];
+        m.exports = vec![("f".into(), ExportKind::Func(1))];
+        add("allowed import", m.encode(), true, true);
+        m.imports[0].name = "x".into();
+        add("disallowed import", m.encode(), false, false);
+        m.imports = vec![Import { module: "env".into(), name: "h0".into(), ty: 0 }, Import { module: "env".into(), name: "h0".into(), ty: 0 }];
+        add("duplicate import", m.encode(), false, false);
+        m.imports = vec![Import { module: "env".into(), name: "h0".into(), ty: 7 }];
+        add("import with non-existent type", m.encode(), false, false);
+        let mut m = base_module();
+        m.imports = vec![Import { module: "env".into(), name: "h0".into(), ty: 0 }];
+        m.exports = vec![("f".into(), ExportKind::Func(0))];
+        // exporting an imported function is a valid Wasm module
+        add("export of an imported function", m.encode(), true, true);
+    }
+    // data segments
+    for (off, len, ok) in [(65535u32, 1usize, true), (65535, 2, false), (65536, 0, true), (65536, 1, false), (0, 65536, true), (u32::MAX, 1, false)] {
+        let mut m = base_module();
+        m.memory = Some((1, None));
+        m.data = vec![(off, vec![7; len])];
+        add(&format!("data segment offset {off} len {len} in 1 page"), m.encode(), ok, ok);
+    }
+    {
+        let mut m = base_module();
+        m.data = vec![(0, vec![1])];
+        add("data segment without memory", m.encode(), false, false);
+        let mut m = base_module();
+        m.elems = vec![(0, vec![0])];
+        add("element segment without table", m.encode(), false, false);
+    }
+    // element segments
+    for (off, fs, ok) in [(1u32, vec![0u32], true), (2, vec![0], false), (2, vec![], true), (0, vec![0, 0], true), (0, vec![1], false), (0, vec![0, 0, 0], false)] {
+        let mut m = base_module();
+        m.table = Some((2, None));
+        m.elems = vec![(off, fs.clone())];
+        add(&format!("element segment offset {off} funcs {fs:?} in table of 2"), m.encode(), ok, ok);
+    }
+    // function / code section mismatch, type index
+    {
+        let mut m = base_module();
+        m.funcs[0].ty = 9;
+        add("function with non-existent type", m.encode(), false, false);
+        let m = base_module();
+        let b = m.encode();
+        // drop the code section (id 10): find it
+        let mut pos = 8;
+        let mut without_code = b[..8].to_vec();
+        while pos < b.len() {
+            let id = b[pos];
+            let len = b[pos + 1] as usize; // all sections here are < 128 bytes
+            if id != 10 {
+                without_code.extend_from_slice(&b[pos..pos + 2 + len]);
+            }
+            pos += 2 + len;
+        }
+        add("function section without code section", without_code, false, false);
+    }
+    // types: two results, float types
+    {
+        let m = base_module();
+        let b = m.encode();
+        let with_types = |ty: &[u8]| {
+            // replace the type section by a raw one
+            let mut out = b[..8].to_vec();
+            out.extend(raw_section(1, ty));
+            let tlen = b[9] as usize;
+            out.extend_from_slice(&b[10 + tlen..]);
+            out
+        };
+        add("function type with two results", with_types(&[2, 0x60, 0, 2, 0x7F, 0x7F, 0x60, 1, 0x7F, 1, 0x7F]), false, false);
+        add("function type with f32 parameter", with_types(&[2, 0x60, 0, 0, 0x60, 1, 0x7D, 1, 0x7F]), false, false);
+        add("function type with f64 result", with_types(&[2, 0x60, 0, 0, 0x60, 1, 0x7F, 1, 0x7C]), false, false);
+        add("function type with wrong tag", with_types(&[2, 0x61, 0, 0, 0x60, 1, 0x7F, 1, 0x7F]), false, false);
+        // non-minimal but legal LEB128: the vector length 2 encoded in 5 bytes
+        add("type section length in padded LEB128", with_types(&[0x82, 0x80, 0x80, 0x80, 0x00, 0x60, 0, 0, 0x60, 1, 0x7F, 1, 0x7F]), true, true);
+        // over-long LEB128 (6 bytes)
+        add("type section length in over-long LEB128", with_types(&[0x82, 0x80, 0x80, 0x80, 0x80, 0x00, 0x60, 0, 0, 0x60, 1, 0x7F, 1, 0x7F]), false, false);
+        // 5-byte LEB128 with bits beyond 32
+        add("LEB128 u32 with bits beyond 32", with_types(&[0x82, 0x80, 0x80, 0x80, 0x10, 0x60, 0, 0, 0x60, 1, 0x7F, 1, 0x7F]), false, false);
+    }
+    // global initialisers and offsets referring to globals
+    {
+        let m = base_module();
+        let b = m.encode();
+        // global section: g0 = const i32 5 (immutable); g1 = global.get 0
+        let gsec = raw_section(6, &[2, 0x7F, 0x00, 0x41, 5, 0x0B, 0x7F, 0x00, 0x23, 0, 0x0B]);
+        // Wasm 1.0: a global initialiser may only refer to imported globals, of which there
+        // are none on this chain.
+        add("global initialised from a module-defined global", splice(&b, Some(5), &gsec), false, false);
+        let gsec1 = raw_section(6, &[1, 0x7F, 0x00, 0x41, 5, 0x0B]);
+        let mut with_g = splice(&b, Some(5), &gsec1);
+        with_g = splice(&with_g, Some(4), &raw_section(5, &[1, 0, 1]));
+        // data offset = global.get 0 (immutable i32): allowed by the 2019 text (V0), not by the
+        // corrected specification (V1), as documented in ValidationConfig
+        let dsec = raw_section(11, &[1, 0, 0x23, 0, 0x0B, 1, 0xAA]);
+        add("data offset from an immutable global", splice(&with_g, Some(10), &dsec), true, false);
+        let gsecm = raw_section(6, &[1, 0x7F, 0x01, 0x41, 5, 0x0B]);
+        let mut with_gm = splice(&b, Some(5), &gsecm);
+        with_gm = splice(&with_gm, Some(4), &raw_section(5, &[1, 0, 1]));
+        add("data offset from a mutable global", splice(&with_gm, Some(10), &dsec), false, false);
+        let dsec64 = raw_section(11, &[1, 0, 0x42, 0, 0x0B, 1, 0xAA]);
+        add("data offset of type i64", splice(&with_g, Some(10), &dsec64), false, false);
+        let dsec_nonconst = raw_section(11, &[1, 0, 0x41, 0, 0x41, 0, 0x6A, 0x0B, 1, 0xAA]);
+        add("data offset that is not a constant expression", splice(&with_g, Some(10), &dsec_nonconst), false, false);
+        let gbad = raw_section(6, &[1, 0x7F, 0x00, 0x42, 5, 0x0B]);
+        add("i32 global initialised with i64.const", splice(&b, Some(5), &gbad), false, false);
+        let gf = raw_section(6, &[1, 0x7D, 0x00, 0x43, 0, 0, 0, 0, 0x0B]);
+        add("f32 global", splice(&b, Some(5), &gf), false, false);
+    }
+    // sign extension, per configuration
+    {
+        let mut m = base_module();
+        m.funcs[0].body = vec![Instr::I32Const(1), Instr::Num(0xC0), Instr::Drop];
+        add("i32.extend8_s", m.encode(), false, true);
+    }
+    // code after the final end / unterminated body, at the byte level
+    {
+        let m = base_module();
+        let b = m.encode();
+        let with_code = |code: &[u8]| {
+            let mut out = vec![];
+            // everything before the code section
+            let mut pos = 8;
+            out.extend_from_slice(&b[..8]);
+            while pos < b.len() {
+                let id = b[pos];
+                let len = b[pos + 1] as usize;
+                if id != 10 {
+                    out.extend_from_slice(&b[pos..pos + 2 + len]);
+                } else {
+                    let mut body = vec![1u8];
+                    leb_u(code.len() as u64, &mut body);
+                    body.extend_from_slice(code);
+                    out.extend(raw_section(10, &body));
+                }
+                pos += 2 + len;
+            }
+            out
+        };
+        add("body: end", with_code(&[0, 0x0B]), true, true);
+        add("body: nop end", with_code(&[0, 0x01, 0x0B]), true, true);
+        add("body: end nop", with_code(&[0, 0x0B, 0x01]), false, false);
+        add("body: end end", with_code(&[0, 0x0B, 0x0B]), false, false);
+        add("body: end i32.const drop", with_code(&[0, 0x0B, 0x41, 0x07, 0x1A]), false, false);
+        add("body: nop (unterminated)", with_code(&[0, 0x01]), false, false);
+        add("body: block end (missing function end)", with_code(&[0, 0x02, 0x40, 0x0B]), false, false);
+        add("body: declared size one byte short", {
+            let mut x = with_code(&[0, 0x01, 0x0B]);
+            // the body-size byte is the third from the end of the code payload
+            let n = x.len();
+            x[n - 4] -= 1;
+            x
+        }, false, false);
+        add("body: locals vector claims 2^32-1 groups", with_code(&[0xFF, 0xFF, 0xFF, 0xFF, 0x0F, 0x0B]), false, false);
+        add("body: one group of 2^32-1 locals", with_code(&[1, 0xFF, 0xFF, 0xFF, 0xFF, 0x0F, 0x7F, 0x0B]), false, false);
+        add("body: two groups overflowing u32", with_code(&[2, 0xFF, 0xFF, 0xFF, 0xFF, 0x0F, 0x7F, 0xFF, 0xFF, 0xFF, 0xFF, 0x0F, 0x7E, 0x0B]), false, false);
+    }
+    cases
+}
+
+fn limit_level(report: &Report, cases_ctr: &AtomicU64, accepted: &AtomicU64, runs: &AtomicU64) -> Vec<J> {
+    let cases = limit_cases();
+    let mut samples = vec![];
+    for c in &cases {
+        cases_ctr.fetch_add(1, Ordering::Relaxed);
+        for (vcfg, expect) in [(VCfg::V0, c.expect.0), (VCfg::V1, c.expect.1)] {
+            let wit = json!({"gen": "limits", "case": c.name, "config": vcfg.name(), "bytes": mc_core::hex(&c.bytes[..c.bytes.len().min(4096)])});
+            match accepts(&c.bytes, plain(vcfg)) {
+                Err(p) => report.violation("instantiate-panic", wit, json!({"panic": p})),
+                Ok(got) => {
+                    if got.is_some() != expect {
+                        report.violation(
+                            if expect { "valid-module-rejected" } else { "invalid-module-accepted" },
+                            json!({"gen": "limits", "case": c.name, "config": vcfg.name()}),
+                            json!({"expected_valid": expect, "accepted": got.is_some(), "bytes": mc_core::hex(&c.bytes[..c.bytes.len().min(4096)])}),
+                        );
+                    }
+                    if got.is_some() {
+                        accepted.fetch_add(1, Ordering::Relaxed);
+                        if let Ok(Some(art)) = accepts(&c.bytes, metered(vcfg)) {
+                            exec_safely(report, &wit, &art, runs);
+                        }
+                    }
+                }
+            }
+        }
+        if samples.len() < 4 {
+            samples.push(json!({"limit_case": c.name, "expected(V0,V1)": [c.expect.0, c.expect.1]}));
+        }
+    }
+    samples
+}
+
+// ---------------------------------------------------------------------------------------
+// (3) byte level
+// ---------------------------------------------------------------------------------------
+
+fn seed_modules() -> Vec<(String, Vec<u8>)> {
+    let mut seeds = vec![];
+    let shape = Shape { ret: Some(VT::I32), hosts: true };
+    use Instr::*;
+    let bodies: Vec<(&str, Vec<Instr>)> = vec![
+        ("arith", vec![LocalGet(0), LocalGet(1), Num(0x6A)]),
+        (
+            "control",
+            vec![Block(BT::Val(VT::I32)), LocalGet(0), LocalGet(1), BrIf(0), Drop, Loop(BT::Empty), LocalGet(2), I32Const(1), Num(0x6A), LocalTee(2), I32Const(3), Num(0x49), BrIf(0), End, LocalGet(2), End],
+        ),
+        ("memory", vec![I32Const(8), LocalGet(0), Store(0x36, 2, 0), I32Const(1), MemoryGrow, Drop, I32Const(8), Load(0x28, 2, 4)]),
+        ("calls", vec![LocalGet(0), Call(1), LocalGet(1), I64Const(5), Call(2), Num(0xA7), Num(0x6A), Call(0), LocalGet(0), CallIndirect(1), Num(0x6B)]),
+        ("table-switch", vec![Block(BT::Empty), Block(BT::Empty), LocalGet(0), BrTable(vec![0, 1], 1), End, I32Const(7), Return, End, I32Const(9)]),
+    ];
+    for (n, b) in bodies {
+        seeds.push((n.to_string(), gen::template(&b, shape, false).encode()));
+    }
+    // contracts shipped with the repository
+    for dir in ["/repo/smart-contracts/testdata/contracts", "/repo/smart-contracts/wasm-chain-integration/test-data", "/repo/smart-contracts/wasm-transform/testdata"] {
+        if let Ok(rd) = std::fs::read_dir(dir) {
+            let mut files: Vec<_> = rd.filter_map(|e| e.ok()).map(|e| e.path()).filter(|p| p.extension().map(|e| e == "wasm").unwrap_or(false)).collect();
+            files.sort();
+            for f in files {
+                if let Ok(bytes) = std::fs::read(&f) {
+                    // byte-level neighbourhoods are quadratic-ish in practice; keep the small ones
+                    if bytes.len() <= 1500 {
+                        seeds.push((f.file_name().unwrap().to_string_lossy().to_string(), bytes));
+                    }
+                }
+            }
+        }
+    }
+    seeds
+}
+
+/// Permissive policy used for the repository's own contracts (they import `concordium.*`).
+struct AnyImports;
+impl concordium_wasm::validate::ValidateImportExport for AnyImports {
+    fn validate_import_function(&self, duplicate: bool, _m: &concordium_wasm::types::Name, _i: &concordium_wasm::types::Name, _t: &concordium_wasm::types::FunctionType) -> bool {
+        !duplicate
+    }
+
+    fn validate_export_function(&self, _i: &concordium_wasm::types::Name, _t: &concordium_wasm::types::FunctionType) -> bool { true }
+}
+
+fn byte_level(report: &Report, tier: Tier, cases: &AtomicU64, accepted: &AtomicU64, runs: &AtomicU64) -> Vec<J> {
+    let seeds = seed_modules();
+    let mut samples = vec![];
+    let max_seeds = if tier == Tier::Quick { 6 } else { usize::MAX };
+    for (name, bytes) in seeds.iter().take(max_seeds) {
+        // the unmodified seed must be accepted (under the permissive import policy)
+        let ok0 = mc_core::catch(|| {
+            concordium_wasm::utils::instantiate_with_metering::<concordium_wasm::artifact::ArtifactNamedImport>(
+                concordium_wasm::validate::ValidationConfig::V1,
+                concordium_wasm::CostConfigurationV1,
+                &AnyImports,
+                bytes,
+            )
+            .is_ok()
+        });
+        samples.push(json!({"seed_module": name, "bytes": bytes.len(), "accepted_unmodified": format!("{ok0:?}")}));
+        // mutants
+        let mut mutants: Vec<(String, Vec<u8>)> = vec![];
+        for cut in 0..bytes.len() {
+            mutants.push((format!("truncate@{cut}"), bytes[..cut].to_vec()));
+        }
+        let repl: &[u8] = if tier == Tier::Quick { &[0x00, 0xFF] } else { &[0x00, 0x7F, 0x80, 0xFF, 0x0B, 0x01] };
+        for pos in 8..bytes.len() {
+            for &r in repl {
+                if bytes[pos] != r {
+                    let mut m = bytes.clone();
+                    m[pos] = r;
+                    mutants.push((format!("byte@{pos}={r:#04x}"), m));
+                }
+            }
+            // increment / decrement (length fields +-1, index +-1)
+            for d in [1u8, 0xFF] {
+                let mut m = bytes.clone();
+                m[pos] = m[pos].wrapping_add(d);
+                mutants.push((format!("byte@{pos}+{}", d as i8), m));
+            }
+            // LEB128 padding: a single-byte value re-encoded non-minimally in 2 bytes
+            if bytes[pos] < 0x80 {
+                let mut m = bytes[..pos].to_vec();
+                m.push(bytes[pos] | 0x80);
+                m.push(0x00);
+                m.extend_from_slice(&bytes[pos + 1..]);
+                mutants.push((format!("leb-pad@{pos}"), m));
+            }
+            if tier == Tier::Thorough {
+                // byte deleted / duplicated
+                let mut m = bytes.clone();
+                m.remove(pos);
+                mutants.push((format!("delete@{pos}"), m));
+                let mut m = bytes.clone();
+                m.insert(pos, bytes[pos]);
+                mutants.push((format!("dup@{pos}"), m));
+            }
+        }
+        mutants.par_iter().for_each(|(mname, m)| {
+            cases.fetch_add(1, Ordering::Relaxed);
+            let wit = json!({"gen": "bytes", "seed": name, "mutation": mname});
+            for vcfg in [VCfg::V1, VCfg::V0] {
+                let r = mc_core::catch(|| {
+                    concordium_wasm::utils::instantiate_with_metering::<concordium_wasm::artifact::ArtifactNamedImport>(
+                        vcfg.cfg(),
+                        concordium_wasm::CostConfigurationV1,
+                        &AnyImports,
+                        m,
+                    )
+                });
+                match r {
+                    Err(p) => report.violation("instantiate-panic", wit.clone(), json!({"config": vcfg.name(), "panic": p, "bytes": mc_core::hex(m)})),
+                    Ok(Err(_)) => {}
+                    Ok(Ok(inst)) => {
+                        accepted.fetch_add(1, Ordering::Relaxed);
+                        // plain build must agree on acceptance
+                        let plain_ok = mc_core::catch(|| {
+                            concordium_wasm::utils::instantiate::<concordium_wasm::artifact::ArtifactNamedImport, _>(vcfg.cfg(), &AnyImports, m).is_ok()
+                        });
+                        if plain_ok != Ok(true) {
+                            report.violation("metering-changes-acceptance", wit.clone(), json!({"config": vcfg.name(), "plain": format!("{plain_ok:?}")}));
+                        }
+                        if vcfg == VCfg::V1 {
+                            exec_safely(report, &wit, &inst.artifact, runs);
+                            // artifact serialisation of whatever was accepted must reload
+                            let ab = real::artifact_bytes(&inst.artifact);
+                            let rl = mc_core::catch(|| concordium_wasm::utils::parse_artifact::<concordium_wasm::artifact::ArtifactNamedImport>(&ab).map(|a| real::artifact_bytes(&a)));
+                            match rl {
+                                Ok(Ok(again)) if again == ab => {}
+                                other => report.violation("artifact-does-not-reload", wit.clone(), json!({"result": format!("{:?}", other.map(|x| x.map(|v| v.len())))})),
+                            }
+                        }
+                    }
+                }
+            }
+        });
+    }
+    samples
+}
+
+pub fn run(cli: &Cli) -> ! {
+    let report = Report::new(cli);
+    if let Some(path) = &cli.replay {
+        replay(&report, path);
+    }
+    let cases = AtomicU64::new(0);
+    let accepted = AtomicU64::new(0);
+    let runs = AtomicU64::new(0);
+    let prefixes = AtomicU64::new(0);
+    instr_level(&report, cli.tier, &cases, &accepted, &runs, &prefixes);
+    let n_instr = cases.load(Ordering::Relaxed);
+    eprintln!("[instr level] cases={} elapsed={:.1}s", n_instr, report.elapsed_s());
+    let s2 = limit_level(&report, &cases, &accepted, &runs);
+    let n_limits = cases.load(Ordering::Relaxed) - n_instr;
+    eprintln!("[limit level] cases={} elapsed={:.1}s", n_limits, report.elapsed_s());
+    let s3 = byte_level(&report, cli.tier, &cases, &accepted, &runs);
+    let n_bytes = cases.load(Ordering::Relaxed) - n_instr - n_limits;
+    eprintln!("[byte level] cases={} elapsed={:.1}s", n_bytes, report.elapsed_s());
+    let total = cases.load(Ordering::Relaxed);
+    report.eval(total);
+    report.state(prefixes.load(Ordering::Relaxed));
+    report.transition(total * 2 + runs.load(Ordering::Relaxed));
+    report.trace(total * 2);
+    report.nontrivial(accepted.load(Ordering::Relaxed));
+    report.outcome("accepted", accepted.load(Ordering::Relaxed));
+    report.outcome("rejected", total * 2 - accepted.load(Ordering::Relaxed).min(total * 2));
+    report.set_extra("instruction_level_cases", json!(n_instr));
+    report.set_extra("limit_level_cases", json!(n_limits));
+    report.set_extra("byte_level_cases", json!(n_bytes));
+    report.set_extra("executions_of_accepted_modules", json!(runs.load(Ordering::Relaxed)));
+    for s in s2.into_iter().chain(s3) {
+        report.sample(s);
+    }
+    report.sample(json!({"instr_case": "every admissible prefix (<= k instructions) followed by every 1- and 2-symbol tail over the hostile alphabet, in a full and in a bare (no memory/table) module"}));
+    report.set_technique("exhaustive enumeration: valid prefixes x all <=2-symbol hostile tails vs. reference validator; boundary table of chain limits; complete byte-mutation neighbourhoods of seed modules, with execution of every accepted module under bounds assertions");
+    report.set_rule("instruction level: accept <=> reference validator; limit level: expected verdict per documented restriction; byte level: no panic + accepted mutants execute safely and their artifacts reload; non-trivial = accepted by the implementation");
+    report.assume("byte-level mutants are checked for totality and execution safety only (no independent binary decoder is used there); the accept<=>valid equivalence is decided at instruction and limit level");
+    report.assume("the bounds assertions of hook H2 stand in for the unchecked accesses they guard");
+    report.finish(true, json!({"prefix_len": if cli.tier == Tier::Quick { 2 } else { 3 }, "tail_len": 2}));
+}
+
+fn replay(report: &Report, path: &std::path::Path) -> ! {
+    let doc = mc_core::load_replay(path);
+    let w = &doc["witness"];
+    match w["gen"].as_str() {
+        Some("instr") => {
+            let body = body_from_json(&w["body"]).unwrap_or_else(|| mc_core::machinery_error("bad body"));
+            let bare = w["bare_module"].as_bool().unwrap_or(false);
+            let shape = Shape { ret: Some(VT::I32), hosts: false };
+            let module = c09_module(&body, shape, bare);
+            let bytes = module.encode();
+            for vcfg in [VCfg::V0, VCfg::V1] {
+                let mut ctx = FnCtx::for_func(&c09_module(&[], shape, bare), 0, vcfg.sign_ext());
+                ctx.has_memory = module.memory.is_some();
+                let expect = validate_body(&ctx, &body).is_ok();
+                let got = accepts(&bytes, plain(vcfg));
+                println!("{}: reference valid={} implementation accepted={:?}", vcfg.name(), expect, got.as_ref().map(|x| x.is_some()));
+                if got.map(|x| x.is_some()) != Ok(expect) {
+                    report.violation("replayed", w.clone(), json!({}));
+                }
+            }
+        }
+        Some("limits") => {
+            let name = w["case"].as_str().unwrap_or("");
+            for c in limit_cases() {
+                if c.name == name {
+                    for (vcfg, expect) in [(VCfg::V0, c.expect.0), (VCfg::V1, c.expect.1)] {
+                        let got = accepts(&c.bytes, plain(vcfg));
+                        println!("{} {}: expected valid={} accepted={:?}", c.name, vcfg.name(), expect, got.as_ref().map(|x| x.is_some()));
+                        if got.map(|x| x.is_some()) != Ok(expect) {
+                            report.violation("replayed", w.clone(), json!({}));
+                        }
+                    }
+                }
+            }
+        }
+        _ => println!("byte-level replay: re-run the check; mutants are derived deterministically from the seed modules"),
+    }
+    report.finish(false, json!("replay"));
+}
